@@ -43,6 +43,7 @@ type Topo struct {
 	Name  string
 	ASes  []AS
 	Links []Link
+	ends  map[int][]End // cache of Ends, dropped when a link is added
 }
 
 // End is one end of a link as seen from an AS.
@@ -63,6 +64,10 @@ func (t *Topo) addAS(name string, isd int, asn int, core bool, routers int) int 
 	return len(t.ASes) - 1
 }
 
+// ifHigh are the high bytes of the interface ids of an AS: the ids cover the 16-bit range (all-zero,
+// single low/high bits, ExpTime-like 0x3f, all-one ...), they are not small consecutive numbers.
+var ifHigh = []uint16{0x00, 0x01, 0x3f, 0xff, 0x80, 0x40, 0x7e, 0x15}
+
 func (t *Topo) nextIf(as int) uint16 {
 	n := uint16(1)
 	for _, l := range t.Links {
@@ -70,8 +75,11 @@ func (t *Topo) nextIf(as int) uint16 {
 			n++
 		}
 	}
-	// interface ids are made distinct across ASes on purpose (catches confusions)
-	return uint16(as+1)*32 + n
+	if n > 19 || as/8 > 11 {
+		panic("interface id space of the harness exhausted")
+	}
+	// interface ids are distinct across ASes on purpose (catches confusions)
+	return ifHigh[as%8]<<8 | (uint16(as/8)*20 + n)
 }
 
 func (t *Topo) link(a, b int, k LinkKind, ar, br int) {
@@ -80,10 +88,23 @@ func (t *Topo) link(a, b int, k LinkKind, ar, br int) {
 	}
 	t.Links = append(t.Links, Link{A: a, B: b, AIf: t.nextIf(a), BIf: t.nextIf(b), Kind: k,
 		AR: ar, BR: br})
+	t.ends = nil
 }
 
 // Ends returns all interface ends of AS i.
 func (t *Topo) Ends(as int) []End {
+	if e, ok := t.ends[as]; ok {
+		return e
+	}
+	out := t.computeEnds(as)
+	if t.ends == nil {
+		t.ends = map[int][]End{}
+	}
+	t.ends[as] = out
+	return out
+}
+
+func (t *Topo) computeEnds(as int) []End {
 	var out []End
 	for li, l := range t.Links {
 		la := fmt.Sprintf("172.%d.%d.1:50000", 16+li/250, li%250)
@@ -228,6 +249,12 @@ func Line(n int, peerAt []int, twoRouters bool) *Topo {
 			t.link(chain[p-1], bs[k%len(bs)], Peer, 0, 0)
 		}
 	}
+	// peering links attached to the FIRST AS of the segments (the core): a peer entry in the first
+	// AS entry, used by peering paths that enter a down segment / leave an up segment at position 1
+	if len(chain) >= 2 {
+		t.link(c, chain[len(chain)/2], Peer, 0, 0)
+	}
+	t.link(c, bs[len(bs)-1], Peer, 0, 0)
 	return t
 }
 
